@@ -638,7 +638,9 @@ func (e *Engine) instrMods(fn *ssa.Function, in ssa.Instruction, into map[string
 			switch b.Name() {
 			case "append", "copy":
 				if sl, ok := com.Args[0].Type().Underlying().(*types.Slice); ok {
-					addMod(into, elemRegion(sl.Elem()), true)
+					// writes land in the destination's backing array (or, for append, a new one): fresh when
+					// the destination was made by this function
+					addMod(into, elemRegion(sl.Elem()), !isFreshRoot(com.Args[0], scope))
 				}
 			case "delete":
 				addMod(into, mapHasRegion(com.Args[0].Type().Underlying().(*types.Map)), true)
